@@ -22,6 +22,7 @@ import (
 
 	"verifharness/kit"
 	"verifharness/refmodel"
+	"verifharness/simnet"
 )
 
 type C01Cfg struct {
@@ -57,7 +58,7 @@ type C01Dgram struct {
 
 type C01Sc struct {
 	Cfg  C01Cfg
-	Op   string // none | ping | bootstrap | announce | announce-implied | scrape | traverse | get | get-mutable | put
+	Op   string // none | ping | bootstrap | announce | announce-implied | scrape | traverse | get | get-mutable | put | announce-close (nobody reads the peers channel; the announce is closed after the datagram sequence) | tm (Server.TableMaintainer runs in the background)
 	Msgs []C01Dgram
 }
 
@@ -114,12 +115,17 @@ func genC01(t *rapid.T) C01Sc {
 	case 2:
 		sc.Cfg.Hook = "allow"
 	}
-	sc.Op = pick(t, "op", "none", "none", "ping", "bootstrap", "announce", "announce-implied", "scrape", "traverse", "get", "get-mutable", "put", "put")
+	sc.Op = pick(t, "op", "none", "none", "ping", "bootstrap", "announce", "announce-implied", "scrape", "traverse", "get", "get-mutable", "put", "put", "announce-close", "tm", "tm")
 	n := 1 + uniformInt(t, deep(t, 40), "nmsgs")
 	for i := 0; i < n; i++ {
 		d := C01Dgram{Src: genSrc(t, sc.Cfg.Dual, "src")}
 		roll := uniformInt(t, 10, "kind")
-		if sc.Op != "none" && roll < 5 {
+		if sc.Op == "tm" && roll >= 7 {
+			// a burst of well-formed pings from fresh addresses whose IDs all fall into the bucket the table
+			// maintainer is refreshing at that moment
+			d.Kind = "fill"
+			d.K = uniformInt(t, 1<<16, "fillseed")
+		} else if sc.Op != "none" && roll < 5 {
 			d.Kind = "reply"
 			d.K = uniformInt(t, 8, "k")
 			d.FromOther = uniformInt(t, 8, "fromother") == 0
@@ -345,6 +351,7 @@ func runC01(sc C01Sc, c *kit.Case) *kit.Violation {
 	copy(k32[:], key.pub)
 	ctx, cancelOp := context.WithCancel(context.Background())
 	defer cancelOp()
+	closeAnnounce := make(chan struct{})
 	startOp := func(f func()) {
 		opWG.Add(1)
 		go func() { defer opWG.Done(); f() }()
@@ -376,6 +383,19 @@ func runC01(sc C01Sc, c *kit.Case) *kit.Violation {
 		startOp(func() { drain(sv.S.Announce([20]byte{0xa0, 3}, 6881, false, dht.Scrape())) })
 	case "traverse":
 		startOp(func() { drain(sv.S.AnnounceTraversal([20]byte{0xa0, 4})) })
+	case "announce-close":
+		startOp(func() {
+			a, err := sv.S.Announce([20]byte{0xa0, 5}, 6881, false)
+			if err != nil {
+				return
+			}
+			<-closeAnnounce // nobody takes the responses meanwhile
+			a.Close()
+			time.Sleep(10 * time.Millisecond) // whatever Close sets in motion happens with the responses still untaken
+			drain(a, nil)
+		})
+	case "tm":
+		simnet.Go(sv.S.TableMaintainer) // runs until the node is closed
 	case "get":
 		startOp(func() { getput.Get(ctx, bep44.Target{0x9e, 1}, sv.S, nil, nil) })
 	case "get-mutable":
@@ -416,6 +436,32 @@ func runC01(sc C01Sc, c *kit.Case) *kit.Violation {
 			}
 			reachedHandler = true
 			c.Label("stored-item-get-or-put")
+		} else if d.Kind == "fill" {
+			bucket := 0
+			qs := net1.Queries()
+			for j := len(qs) - 1; j >= 0; j-- {
+				if tg, ok := qs[j].Arg("target"); ok && qs[j].Method == "find_node" && len(tg.S) == 20 {
+					var tid [20]byte
+					copy(tid[:], tg.S)
+					if tid != nodeID {
+						bucket = refmodel.CommonPrefixLen(tid, nodeID)
+						break
+					}
+				}
+			}
+			for j := 0; j < 10; j++ {
+				var tail [20]byte
+				tail[10], tail[11], tail[12], tail[19] = byte(d.K>>8), byte(d.K), byte(i), byte(j)
+				id := refmodel.WithPrefix(nodeID, bucket, tail)
+				from := &net.UDPAddr{IP: net.IP{77, byte(1 + i%200), byte(d.K), byte(1 + j)}, Port: 7700 + j}
+				if sc.Cfg.Dual {
+					from.IP = from.IP.To16()
+				}
+				sv.C.Inject(from, mkQuery([]byte(fmt.Sprintf("fl%d", j)), "ping", mkArgs(id)))
+			}
+			reachedHandler = true
+			c.Label("bucket-filling-burst")
+			continue
 		} else if d.Kind == "reply" {
 			qs := net1.Queries()
 			if len(qs) == 0 {
@@ -451,6 +497,7 @@ func runC01(sc C01Sc, c *kit.Case) *kit.Violation {
 		}
 	}
 	// the adversary stops answering: the operation must come to an end on its own
+	close(closeAnnounce)
 	adversary.Store(false)
 	select {
 	case <-opDone:
